@@ -268,7 +268,7 @@ def pmodel(inp):
 # ------------------------------------------------------------------ fits
 def gen_fit(tier, seed):
     for kind in ("xy", "indexed", "hist", "unbinned", "custom"):
-        for config in ("plain", "sources", "model-sources", "disabled-source", "constraints", "fixed+limited", "everything"):
+        for config in ("plain", "sources", "model-sources", "disabled-source", "constraints", "fixed+limited", "limit-at-zero", "one-sided-limit", "everything"):
             if kind in ("unbinned", "custom") and config in ("sources", "model-sources", "disabled-source", "everything"):
                 continue
             for state in ("not-fitted", "fitted", "fitted+asymmetric"):
@@ -314,6 +314,12 @@ def make_fit(kind, config):
     if config in ("fixed+limited", "everything"):
         f.fix_parameter(names[1], 1.25)
         f.limit_parameter(names[0], -3.0, 4.0)
+    if config == "limit-at-zero":          # a bound that is exactly 0 is a bound, not an open side
+        f.limit_parameter(names[0], 0.0, 4.0)
+        f.limit_parameter(names[1], -5.0, 0.0) if kind in ("xy", "indexed") else None
+    if config == "one-sided-limit":
+        f.limit_parameter(names[0], None, 4.0)
+        f.limit_parameter(names[1], 0.0, None)
     return f
 
 
